@@ -124,6 +124,12 @@ func (c *Conn) Read(p []byte) (int, error) {
 		s.BkUnlock()
 		return 0, ErrReset
 	}
+	if !c.rd.IsZero() && !now.Before(c.rd) {
+		// like a real socket: an expired read deadline fails the call even if data is waiting
+		s.BkUnlock()
+		s.Fault("read_deadline")
+		return 0, errTimeout("read")
+	}
 	avail := c.readable(now)
 	if avail == 0 {
 		if c.in.fin && len(c.in.segs) == 0 {
@@ -213,6 +219,12 @@ func (c *Conn) Write(p []byte) (int, error) {
 		if c.out.rst {
 			s.BkUnlock()
 			return total, ErrBrokenPipe
+		}
+		if !c.wd.IsZero() && !time.Now().Before(c.wd) {
+			// like a real socket: an expired write deadline fails the call even if there is room
+			s.BkUnlock()
+			s.Fault("write_deadline")
+			return total, errTimeout("write")
 		}
 		if len(p) == 0 {
 			s.BkUnlock()
